@@ -83,10 +83,6 @@ def solutionOneB (P : Program) (val : Node → Option Val) : Bool :=
     else val n == (if (P.g.preds n).all (fun p => (val p).isSome) then valueOf P n (kwFrom P val n) else none)) &&
   (!(P.g.nodes.any P.g.isOneofHead) || (val P.g.input).isSome)
 
-/-- the view in which, of all one-of candidates, only `c` is visible -/
-def candView (P : Program) (c : Node) : Graph.View :=
-  { okNode := fun u => !(P.g.attr u).isOneofChild || u == c, okEdge := (filteredView P init).okEdge }
-
 /-- Boolean form of the structural part of `OneP` (switches and one-ofs, no recurrent destination) -/
 def onePB (P : Program) : Bool :=
   P.g.edges.all (fun e => !e.isSwitch || !P.g.isSwitch e.u) &&
@@ -100,7 +96,7 @@ def onePB (P : Program) : Bool :=
   P.g.edges.all (fun e => e.v != P.g.input) &&
   P.g.edges.all (fun e => P.g.isSwitch e.v || P.g.isOneofHead e.v || e.kwarg.isSome || e.u == P.g.input) &&
   P.g.nodes.all (fun h => !P.g.isOneofHead h || (P.g.attr h).oneofNodes.all (fun c =>
-    P.g.nodes.contains c && c != P.g.input && (P.g.reachSet (candView P c) P.g.input).contains c)) &&
+    P.g.nodes.contains c && c != P.g.input && (P.g.reachSet (filteredView P init) P.g.input).contains c)) &&
   P.g.nodes.all (fun n => (P.g.attr n).startNode.isNone)
 
 /-- Boolean form of the structural part of `SwP`: `OneP` without one-ofs -/
